@@ -34,7 +34,7 @@ func uname(prefix string) gen.Atom {
 // yield point between the table delete and the relation drain, and its subject
 func unregPoint(dc dcase, tgt any, owner gen.PID) (string, any) {
 	switch dc.via {
-	case "kill", "exit":
+	case "kill", "exit", "killbusy":
 		switch dc.tk {
 		case "pid":
 			return "proc.unreg.deleted", tgt
@@ -169,7 +169,7 @@ func runPair(id, scenario string, dc dcase) {
 
 	var wantReason error
 	switch dc.via {
-	case "kill":
+	case "kill", "killbusy":
 		wantReason = gen.TerminateReasonKill
 	case "exit", "metastop", "metahandler":
 		wantReason = errCustom
@@ -205,6 +205,16 @@ func runPair(id, scenario string, dc dcase) {
 		switch dc.via {
 		case "kill":
 			go node.Kill(T.pid)
+		case "killbusy":
+			// Kill while the target is inside a handler: it becomes a zombie and terminates when the handler returns
+			b := cmd{Op: "block", Entered: make(chan struct{}), Release: make(chan struct{})}
+			node.Send(T.pid, b)
+			select {
+			case <-b.Entered:
+			case <-time.After(5 * time.Second):
+			}
+			node.Kill(T.pid)
+			close(b.Release)
 		case "exit":
 			node.Send(T.pid, cmd{Op: "exit", Err: errCustom})
 		case "unreg":
@@ -810,7 +820,7 @@ func runLinkParent(id, scenario, via string, unlinkFirst bool) {
 func viasOf(tk string) []string {
 	switch tk {
 	case "pid":
-		return []string{"kill", "exit"}
+		return []string{"kill", "exit", "killbusy"}
 	case "name":
 		return []string{"kill", "exit", "unreg", "unregnode"}
 	case "metaalias":
